@@ -16,4 +16,5 @@ def run(ctx):
     obs += cp.rules_rule(ctx, 'C09')
     obs += cp.class_flag_rule(ctx, 'C09')
     obs += cp.class_only_rule(ctx, 'C09')
+    obs += cp.step_rules(ctx, 'C09')
     return obs
